@@ -866,3 +866,89 @@ func supCorpus() []SupReplay {
 }
 
 var _ = atomic.AddInt32
+
+// runRealRun: the real Forwarder.Run (init, the sync ticker, the persist ticker) with one-second intervals, one worker, a
+// real syslog sink: everything is delivered, a persist tick writes the position, a configuration change arrives through
+// the sync ticker, the context ends and the final persist holds the last position. Oracle only (the tickers are not
+// scripted); the steps themselves are what the stream sup compares with the model.
+func runRealRun() (*Case, error) {
+	col, err := newSupCollector()
+	if err != nil {
+		return nil, err
+	}
+	defer col.ln.Close()
+	d := &supDriver{dir: TempDir("c18run"), col: col, lastPos: map[string]int{}, delivered: map[string]int{},
+		cli: &supClient{stores: map[string][]int64{}, failEnsure: map[string]bool{}, ensures: map[string]int{}}}
+	defer RemoveAll(d.dir)
+	d.cur = []SupCfg{{N: 1, K: 0}}
+	d.cli.appendN(supDest(1), 5)
+	cfg := d.mkConfig(d.cur)
+	cfg.StateStoreIntervalSec, cfg.SyncWorkersIntervalSec = 1, 1
+	st, err := storage.NewStorage(&storage.Config{Type: storage.TypeFile, Location: d.dir})
+	if err != nil {
+		return nil, err
+	}
+	f, err := forwarder.NewForwarder(cfg, d.cli, st)
+	if err != nil {
+		return nil, err
+	}
+	ctx, cancel := context.WithCancel(context.Background())
+	defer cancel()
+	if err := f.Run(ctx); err != nil {
+		d.fail("run-start-failed", err.Error())
+	}
+	waitFor := func(what string, cond func() bool, to time.Duration) bool {
+		dl := time.Now().Add(to)
+		for time.Now().Before(dl) {
+			if cond() {
+				return true
+			}
+			time.Sleep(5 * time.Millisecond)
+		}
+		d.fail("run-"+what, fmt.Sprintf("not within %v", to))
+		return false
+	}
+	storedPos := func(name string) int {
+		data, err := st.ReadData("forwarder.json")
+		if err != nil || len(data) == 0 {
+			return -1
+		}
+		var arr []struct {
+			Worker   struct{ Name string }
+			Position string
+		}
+		if json.Unmarshal(data, &arr) != nil {
+			return -1
+		}
+		for _, a := range arr {
+			if a.Worker.Name == name {
+				p, _ := posOf(a.Position)
+				return p
+			}
+		}
+		return -1
+	}
+	if d.viol == nil {
+		waitFor("events-not-delivered", func() bool { return col.count(supDest(1)) >= 5 }, 3*time.Second)
+		waitFor("position-not-persisted-by-the-ticker", func() bool { return storedPos("w1") == 5 }, 3*time.Second)
+		// a second worker arrives through the sync ticker
+		d.cli.appendN(supDest(2), 3)
+		d.cur = []SupCfg{{N: 1, K: 0}, {N: 2, K: 0}}
+		waitFor("worker-of-a-reloaded-configuration-not-started", func() bool { return col.count(supDest(2)) >= 3 }, 4*time.Second)
+		d.cli.appendN(supDest(1), 2)
+		waitFor("events-not-delivered", func() bool { return col.count(supDest(1)) >= 7 }, 3*time.Second)
+	}
+	cancel()
+	if err := f.Close(); err != nil {
+		d.fail("run-close", err.Error())
+	}
+	if d.viol == nil {
+		if p := storedPos("w1"); p != 7 {
+			d.fail("run-final-persist", fmt.Sprintf("after the context ended and Close returned forwarder.json holds position %d for w1, 7 events were accepted", p))
+		} else if p := storedPos("w2"); p != 3 {
+			d.fail("run-final-persist", fmt.Sprintf("after the context ended and Close returned forwarder.json holds position %d for w2, 3 events were accepted", p))
+		}
+	}
+	return &Case{Coq: GApp("KSup", "[]", "[]", GPair("[]", "[]"), "[]", "[]", "[]"), Replay: map[string]interface{}{"realrun": true},
+		NonTrivial: true, Stream: "realrun", Oracle: d.viol, Key: "realrun"}, nil
+}
